@@ -1013,6 +1013,18 @@ EXTRACTORS["C03"] = EXTRACTORS["C03"] + [GEN_SRC["SrcSus"]]
 # genio: C12 — Thm/C12.lean imports RbV.Thm.GenSrcIdxFa and restates the theorems
 EXTRACTORS["C12"] = EXTRACTORS.get("C12", []) + [GEN_SRC["SrcIdxFa"]]
 
+# gensparse: sparse alignment (C19) — dialect "sp" of tools/rs2lean_gensparse.py; Thm/C19.lean imports RbV.Thm.GenSrcLcskpp (…)
+# and restates.  SrcFenwick (C18's unit) is regenerated for C19 too: the translated lcskpp calls its `get` / `set`.
+TRANSLATOR_MODULES.append("rs2lean_gensparse")
+GEN_SRC.update({n: gen_src(n) for n in ("SrcFenwickNew", "SrcLcskpp")})
+EXTRACTORS["C19"] = EXTRACTORS["C19"] + [GEN_SRC["SrcFenwick"], GEN_SRC["SrcFenwickNew"], GEN_SRC["SrcLcskpp"]]
+
+GEN_SRC.update({n: gen_src(n) for n in ("SrcSdpkpp",)})
+EXTRACTORS["C19"] = EXTRACTORS["C19"] + [GEN_SRC["SrcSdpkpp"]]
+
+GEN_SRC.update({n: gen_src(n) for n in ("SrcKmerMatches",)})
+EXTRACTORS["C19"] = EXTRACTORS["C19"] + [GEN_SRC["SrcKmerMatches"]]
+
 # additive registrations (kept outside the dict literal so that concurrent edits merge)
 EXTRACTORS["C03"] = EXTRACTORS["C03"] + [gen_saiswidth]
 THEOREMS["SaisWidth"] = ["RbV.Thm.C03.sais_width_arms_fit", "RbV.Thm.C03.sais_reduced_width_fits",
